@@ -22,7 +22,7 @@ META = dict(
          "than a step, longer than the series) x tolerance in {default 0, .5, 1, 2, 3.5} (window ranges 0,1,2,3 fall on "
          "both sides and exactly on it); D=60 full grid to N, reduced grid {D,2D,3D}^2 at N+1, D in {1,900} to a "
          "smaller N; plus one 1028-point series (de Bruijn sequence with every length-5 window) per D with 8x8 durations. Each state = one real flat_line_test call judged per point by the scalar reference. "
-         "non-trivial = reference demands SUSPECT or FAIL somewhere",
+         "Scale: 12345-point series and plateau series whose run lengths straddle k-1..k+2 points for windows of k = 10..150 samples (n*(k+1) up to 1.9e6), 1 s / 60 s / 1 h sampling. non-trivial = reference demands SUSPECT or FAIL somewhere",
     bounds={"quick": {"D=60 full": 5, "D=60 reduced": 6, "D=1,900": 4}, "thorough": {"D=60 full": 7, "D=60 reduced": 8, "D=1,900": 6}},
     not_judged=["missing points (C02)", "irregular sampling (the statement is about regularly sampled series)"],
     assumptions=["window ranges over the dyadic alphabet are exact"],
